@@ -1,11 +1,11 @@
 (* C01 (end to end) — reading the BYTES of a serialised file returns exactly the
    values its raw data blocks encode, concatenated in file order, per channel.
 
-   Statement ([read_correct]).  Let [segs : list fseg] be a file SYNTAX
-   (Model/FileSyn.v: per segment a ToC mask, a version, an optional metadata
-   block as a list of entries, a raw data block as bytes), [ser_file segs] its
-   bytes, and [chunkss : list (list chunk)] a list of chunk values per segment.
-   If
+   Statement ([read_correct], [read_correct_tokens]).  Let [segs : list fseg] be
+   a file SYNTAX (Model/FileSyn.v: per segment a ToC mask, a version, an
+   optional metadata block as a list of entries, a raw data block as bytes),
+   [ser_file segs] its bytes, and [chunkss : list (list chunk)] chunk values,
+   one list per segment.  If
      wf_file segs                      field widths, declared lengths, metadata flag
                                        (FileSynProofs.wf_file, spelled out in C01_file.v)
      sm_run segs false = Ok st         the metadata pass accepts the syntax
@@ -16,25 +16,30 @@
                                        enc_rows, interleaved; or empty with no data
                                        object) of its chunks, for the object list the
                                        metadata pass computed for that segment
-     data_paths_are_channels h (concat chunkss)
-                                       every path with data is the path of a typed
-                                       channel of the hierarchy
-     no_daqmx_channels h               no channel has the DAQmx raw data type
-     om_paths_canonical (rs_om st)     every object path naming a channel is in
+     om_paths_canonical (rs_om st)     every object path that names a channel is in
                                        canonical form (from_string then str() is the
                                        identity on it)
+     typed_objects_are_channels (rs_om st)
+                                       every object that ever got a data type is a
+                                       channel (its path has a group and a channel
+                                       component)
    then
      rd_all (ser_file segs) = Ok (expected_tokens st h (concat chunkss), true)
    where [rd_all] is the byte-level reader model (Model/Reader.v; what the
    correspondence check compares with TdmsFile.read on every run) and
    [expected_tokens] is the observation
-     version :: obs_hierarchy h (channel c |-> its metadata tokens ++ data tokens)
-             ++ obs_status st
+     version of the first segment
+       :: obs_hierarchy h (channel c |-> its metadata tokens ++ data tokens)
+       ++ obs_status st
    in which the data of a typed channel c is
      CData (chan_values (ch_path c) (concat chunkss))
    = the concatenation, over every chunk of every segment IN FILE ORDER, of the
-   values that chunk holds under c's path; an untyped channel has no data.  The
-   [true] says every receiver got exactly len(channel) values.
+   values that chunk holds under c's path ([chunk_values_lookup]: a dictionary
+   lookup in the chunk); an untyped channel has no data.  The [true] says every
+   receiver got exactly len(channel) values.  The last two hypotheses are
+   necessary, not technical: the reader keys receivers by the canonical channel
+   path and chunks by the raw object path, so data under a non-canonical or
+   non-channel path raises KeyError in _read_data.
 
    Glossary (definitions in Proofs/ReadCorrect.v):
      seg_at pos s g      segment record g is syntax segment s at byte offset pos:
@@ -42,6 +47,8 @@
                          sg_data+|raw data|, not incomplete, ToC as written, and
                          (sg_nchunks, sg_final) = calculate_chunks on |raw data|
      segs_at pos segs gs the same for consecutive segments starting at pos
+     seg_total p g       values the metadata pass credits to path p for segment g
+     om_typed p om       om binds p to an entry whose data type is set
      seg_encodes g d cs  raw data block d encodes chunks cs for segment g
                          (3 cases: no data objects and d empty; contiguous layout,
                          d = enc_chunks of value lists satisfying vals_ok/dsize_ok,
@@ -52,30 +59,39 @@
                          their concatenation over the chunk list cs
      radd vs r           receiver r with vs appended (identity on non-data receivers)
      expected_data cs c  None for an untyped channel, else CData (chan_values ...)
+     data_paths_are_channels h cs  every key of every chunk is the path of a typed
+                         channel of h;  no_daqmx_channels h;  channel_paths_distinct h;
+                         lengths_consistent h cs : ch_len = number of values in cs
 
-   Proved from the model rather than assumed (so NOT hypotheses of read_correct):
-     - segment positions and chunk counts (R1, sm_segment_positions);
+   Proved from the model (so NOT hypotheses of read_correct), each also stated
+   below on its own:
+     - segment positions and chunk counts (R1);
      - the tag check and cursor position of every segment read (R2);
      - len(channel) = number of encoded values (lengths_consistent_ser, from
-       om_len_counts_values: the metadata pass's per-object count is the number
-       of values the raw data encodes);
-     - distinct channels have distinct paths (channel_paths_distinct_ser).
-   [read_correct_given_lengths] is the same theorem with these two stated as
-   hypotheses instead of om_paths_canonical.
+       om_len_counts_values);
+     - distinct channels have distinct paths (channel_paths_distinct_ser);
+     - every path with data is a typed channel of the hierarchy
+       (data_paths_are_channels_ser, via build_hierarchy_complete);
+     - no channel has the DAQmx type (no_daqmx_channels_ser: a DAQmx-typed
+       object is a DAQmx object, a DAQmx object has raw data in the segment
+       that defines it, and no encoded segment has DAQmx data objects).
+   read_correct_given_lengths / _given_channels / _given_no_daqmx are the
+   intermediate forms with these still as hypotheses.
 
    NOT covered (stated, not hidden):
-     - DAQmx segments and channels (seg_encodes has no DAQmx case;
-       no_daqmx_channels is a hypothesis);
+     - DAQmx segments (seg_encodes has no DAQmx case);
      - truncated / incomplete last segments (ser_file writes exact lengths, so
        calculate_chunks never produces a final-chunk override here);
      - contiguous segments whose chunk size is 0 although they have data
        objects (all channels of length 0): seg_encodes has no case for them;
      - that sm_run and build_hierarchy SUCCEED is a hypothesis (which syntaxes
-       they accept is C02's subject), as are data_paths_are_channels and
-       no_daqmx_channels; a boolean check for each hypothesis about h and st
-       is in Proofs/ReadCorrect.v (…_b with …_b_sound) and the Example below
-       discharges all of them on a concrete file;
-     - the index-file entry point (rd_all_idx; see C09_file.v). *)
+       the state machine accepts and what object lists it computes is C02's
+       subject); segs_encode is stated relative to the object lists in st;
+     - the index-file entry point (rd_all_idx; see C09_file.v).
+   Sound boolean checks for om_paths_canonical / typed_objects_are_channels
+   (and for the intermediate hypotheses) are in Proofs/ReadCorrect.v (…_b,
+   …_b_sound); the Example below discharges every hypothesis on a concrete
+   two-segment file and evaluates both sides. *)
 From Coq Require Import List ZArith.
 Import ListNotations.
 From NpTdms Require Import Base.Bytes Base.Res Model.Tokens Model.TokensWf Model.SegState
@@ -89,13 +105,25 @@ Theorem sm_segment_positions : forall segs w st,
     sm_run segs w = Ok st -> segs_at 0 segs (rs_segments st).
 Proof. exact ReadCorrect.sm_segment_positions. Qed.
 
+(* by index: segment record i describes syntax segment i at its byte offset *)
+Theorem sm_segment_positions_nth : forall segs w st i s,
+    wf_file segs ->
+    sm_run segs w = Ok st ->
+    nth_error segs i = Some s ->
+    exists g, nth_error (rs_segments st) i = Some g /\
+              seg_at (blen (ser_file (firstn i segs))) s g.
+Proof. exact ReadCorrect.sm_segment_positions_nth. Qed.
+
 (* positions and chunk counts; per-path value count; distinct metadata keys;
-   the version is the first segment's *)
+   typed segment objects are typed in the metadata; the version is the first
+   segment's *)
 Theorem sm_run_trace : forall segs w st,
     sm_run segs w = Ok st ->
     segs_at 0 segs (rs_segments st) /\
     (forall p, om_len (get_ometa p (rs_om st)) = zsum (map (seg_total p) (rs_segments st))) /\
     NoDup (map fst (rs_om st)) /\
+    (forall g o, In g (rs_segments st) -> In o (sg_objs g) -> so_dtype o <> None ->
+                 om_typed (so_path o) (rs_om st)) /\
     rs_version st = option_map fs_version (hd_error segs).
 Proof. exact ReadCorrect.sm_run_trace. Qed.
 
@@ -124,6 +152,17 @@ Theorem read_segment_encoded : forall pre s rest g chunks,
     read_segment (pre ++ ser_seg TAG_DATA true s ++ rest) g = Ok chunks.
 Proof. exact ReadCorrect.read_segment_encoded. Qed.
 
+(* the chunks an encoded segment yields are dictionaries (distinct keys), so
+   [chunk_values] is a lookup *)
+Theorem seg_encodes_nodup_keys : forall g data chunks,
+    seg_encodes g data chunks -> Forall (fun c : chunk => NoDup (map fst c)) chunks.
+Proof. exact ReadCorrect.seg_encodes_nodup_keys. Qed.
+
+Theorem chunk_values_lookup : forall p (c : chunk),
+    NoDup (map fst c) ->
+    chunk_values p c = match alookup p c with Some (CData vs) => vs | _ => [] end.
+Proof. exact ReadCorrect.chunk_values_lookup. Qed.
+
 (* ---- R4: receivers concatenate ------------------------------------------------ *)
 
 Theorem receive_chunks_concat : forall (chunks : list chunk) recv,
@@ -147,7 +186,7 @@ Theorem rd_eager_ser : forall segs st h chunkss,
                            alookup (ch_path c) recv = Some (expected_data (concat chunkss) c).
 Proof. exact ReadCorrect.rd_eager_ser. Qed.
 
-(* ---- lengths and distinctness, proved from the model ------------------------- *)
+(* ---- facts about the hierarchy and the metadata, proved from the model ------- *)
 
 Theorem om_len_counts_values : forall segs w st chunkss p,
     sm_run segs w = Ok st ->
@@ -167,6 +206,37 @@ Theorem channel_paths_distinct_ser : forall om h,
     build_hierarchy om = Ok h -> om_paths_canonical om -> channel_paths_distinct h.
 Proof. exact ReadCorrect.channel_paths_distinct_ser. Qed.
 
+(* every channel of the hierarchy is made from a metadata entry ... *)
+Theorem build_hierarchy_channels : forall om h,
+    build_hierarchy om = Ok h -> forall ch, In ch (all_channels h) -> chan_from_om om ch.
+Proof. exact ReadCorrect.build_hierarchy_channels. Qed.
+
+(* ... and every metadata entry whose path names a channel is a channel *)
+Theorem build_hierarchy_complete : forall om h p m g c,
+    build_hierarchy om = Ok h ->
+    NoDup (map fst om) ->
+    om_paths_canonical om ->
+    In (p, m) om ->
+    path_from_string p = inr (Some g, Some c) ->
+    In (chan_of_om g c m) (all_channels h).
+Proof. exact ReadCorrect.build_hierarchy_complete. Qed.
+
+Theorem data_paths_are_channels_ser : forall segs w st h chunkss,
+    sm_run segs w = Ok st ->
+    build_hierarchy (rs_om st) = Ok h ->
+    segs_encode (rs_segments st) segs chunkss ->
+    om_paths_canonical (rs_om st) ->
+    typed_objects_are_channels (rs_om st) ->
+    data_paths_are_channels h (concat chunkss).
+Proof. exact ReadCorrect.data_paths_are_channels_ser. Qed.
+
+Theorem no_daqmx_channels_ser : forall segs w st h chunkss,
+    sm_run segs w = Ok st ->
+    build_hierarchy (rs_om st) = Ok h ->
+    segs_encode (rs_segments st) segs chunkss ->
+    no_daqmx_channels h.
+Proof. exact ReadCorrect.no_daqmx_channels_ser. Qed.
+
 (* ---- R6: the whole read ------------------------------------------------------- *)
 
 Theorem read_correct_given_lengths : forall segs st h chunkss,
@@ -181,7 +251,7 @@ Theorem read_correct_given_lengths : forall segs st h chunkss,
     rd_all (ser_file segs) = Ok (expected_tokens st h (concat chunkss), true).
 Proof. exact ReadCorrect.read_correct_given_lengths. Qed.
 
-Theorem read_correct : forall segs st h chunkss,
+Theorem read_correct_given_channels : forall segs st h chunkss,
     wf_file segs ->
     sm_run segs false = Ok st ->
     build_hierarchy (rs_om st) = Ok h ->
@@ -190,7 +260,35 @@ Theorem read_correct : forall segs st h chunkss,
     no_daqmx_channels h ->
     om_paths_canonical (rs_om st) ->
     rd_all (ser_file segs) = Ok (expected_tokens st h (concat chunkss), true).
+Proof. exact ReadCorrect.read_correct_given_channels. Qed.
+
+Theorem read_correct : forall segs st h chunkss,
+    wf_file segs ->
+    sm_run segs false = Ok st ->
+    build_hierarchy (rs_om st) = Ok h ->
+    segs_encode (rs_segments st) segs chunkss ->
+    om_paths_canonical (rs_om st) ->
+    typed_objects_are_channels (rs_om st) ->
+    rd_all (ser_file segs) = Ok (expected_tokens st h (concat chunkss), true).
 Proof. exact ReadCorrect.read_correct. Qed.
+
+(* the same with the observation spelled out *)
+Theorem read_correct_tokens : forall segs st h chunkss,
+    wf_file segs ->
+    sm_run segs false = Ok st ->
+    build_hierarchy (rs_om st) = Ok h ->
+    segs_encode (rs_segments st) segs chunkss ->
+    om_paths_canonical (rs_om st) ->
+    typed_objects_are_channels (rs_om st) ->
+    rd_all (ser_file segs) =
+    Ok (TZ (match segs with s :: _ => fs_version s | [] => 0 end) ::
+        obs_hierarchy h (fun c => obs_cdata
+                                    (match ch_dtype c with
+                                     | None => None
+                                     | Some _ => Some (CData (chan_values (ch_path c) (concat chunkss)))
+                                     end))
+        ++ obs_status st, true).
+Proof. exact ReadCorrect.read_correct_tokens. Qed.
 
 (* ---- the hypotheses are satisfiable, and the conclusion computes ------------- *)
 
@@ -206,12 +304,10 @@ Example c01_read_hier : build_hierarchy (rs_om rc_st) = Ok rc_h.
 Proof. exact rc_hier. Qed.
 Example c01_read_encodes : segs_encode (rs_segments rc_st) rc_file rc_chunks.
 Proof. exact rc_encodes. Qed.
-Example c01_read_paths : data_paths_are_channels rc_h (concat rc_chunks).
-Proof. exact rc_paths. Qed.
-Example c01_read_no_daqmx : no_daqmx_channels rc_h.
-Proof. exact rc_no_daqmx. Qed.
 Example c01_read_canonical : om_paths_canonical (rs_om rc_st).
 Proof. exact rc_canonical. Qed.
+Example c01_read_typed_channels : typed_objects_are_channels (rs_om rc_st).
+Proof. exact rc_typed_channels. Qed.
 
 Example c01_read_example :
   rd_all (ser_file rc_file) = Ok (expected_tokens rc_st rc_h (concat rc_chunks), true).
@@ -237,16 +333,25 @@ Proof. exact rc_read_tokens. Qed.
 End Tokens.
 
 Print Assumptions sm_segment_positions.
+Print Assumptions sm_segment_positions_nth.
 Print Assumptions sm_run_trace.
 Print Assumptions read_segment_ser.
 Print Assumptions seg_encodes_read.
 Print Assumptions read_segment_encoded.
+Print Assumptions seg_encodes_nodup_keys.
+Print Assumptions chunk_values_lookup.
 Print Assumptions receive_chunks_concat.
 Print Assumptions rd_eager_ser.
 Print Assumptions om_len_counts_values.
 Print Assumptions lengths_consistent_ser.
 Print Assumptions channel_paths_distinct_ser.
+Print Assumptions build_hierarchy_channels.
+Print Assumptions build_hierarchy_complete.
+Print Assumptions data_paths_are_channels_ser.
+Print Assumptions no_daqmx_channels_ser.
 Print Assumptions read_correct_given_lengths.
+Print Assumptions read_correct_given_channels.
 Print Assumptions read_correct.
+Print Assumptions read_correct_tokens.
 Print Assumptions c01_read_example.
 Print Assumptions c01_read_example_tokens.
